@@ -307,6 +307,10 @@ func RunScenario(t *testing.T, sc *Scenario, tape *Tape, salt uint64, known []Kn
 		}
 	}
 	GlobalSetup(w, salt)
+	// log verbosity is part of the configuration of a run: at high verbosity
+	// metacontroller executes code (diffs, dumps of objects) that it otherwise skips.
+	// Nothing is written anywhere.
+	SetLogVerbosity(w.T.Pick(4, "verbosity") == 3)
 	sc.Init(w)
 	for i := 0; i < 64; i++ {
 		finished := false
